@@ -203,7 +203,7 @@ Definition valid_path (p : str) : bool :=
   (is_dot p || forallb valid_elem (split_on c_slash p)).
 
 (* ---- bufio.Scanner with ScanLines ---- *)
-Inductive scan_end := ScanEOF | ScanTooLong.
+Inductive scan_end := ScanEOF | ScanTooLong | ScanReaderErr.
 
 Definition drop_cr (l : str) : str :=
   match frev l with
@@ -230,6 +230,16 @@ Fixpoint scan_go (data : str) (cur : str) : list str * scan_end :=
   end.
 
 Definition scan_lines (data : str) : list str * scan_end := scan_go data [].
+
+(* a reader that delivers the first k bytes and then fails: the scanner hands out the
+   complete lines and the final partial line as tokens, then reports the error *)
+Definition scan_lines_r (data : str) (k : option nat) : list str * scan_end :=
+  match k with
+  | None => scan_lines data
+  | Some n =>
+      let '(ls, e) := scan_go (firstn n data) [] in
+      (ls, match e with ScanEOF => ScanReaderErr | x => x end)
+  end.
 
 (* fmt.Sprintln(l) for a string *)
 Definition sprintln (l : str) : str := l ++ [c_lf].
